@@ -83,6 +83,36 @@ for n in need_mp:
     if n not in mp:
         die("turbojpeg-mp.c: statement the model transcribes is gone: " + n)
 
+need_mp2 = [
+    "_jpeg_read_scanlines(dinfo,&row_pointer[dinfo->output_scanline-this->croppingRegion.y],this->croppingRegion.y+this->croppingRegion.h-dinfo->output_scanline);",
+    "_jpeg_read_scanlines(dinfo,&row_pointer[dinfo->output_scanline],dinfo->output_height-dinfo->output_scanline);",
+]
+for n in need_mp2:
+    if n not in mp:
+        die("turbojpeg-mp.c: read loop the model transcribes is gone: " + n)
+# rows written per jpeg_read_scanlines call (model/ExtentRows.v): the clamps of the upsamplers
+def fbody(path, name):
+    t = open(repo + "/src/" + path).read()
+    m = re.search(r"\n" + name + r"\(j_decompress_ptr cinfo.*?\n}\n", t, re.S)
+    if not m:
+        die("%s: function %s not found" % (path, name))
+    return norm(m.group(0))
+clamp = "if(num_rows>upsample->rows_to_go)num_rows=upsample->rows_to_go;"
+clamp2 = "out_rows_avail-=*out_row_ctr;if(num_rows>out_rows_avail)num_rows=out_rows_avail;"
+for path, fn in (("jdsample.c", "sep_upsample"), ("jdmerge.c", "merged_2v_upsample")):
+    b = fbody(path, fn)
+    if clamp not in b or clamp2 not in b:
+        die("%s: %s no longer clamps the row count with 'out_rows_avail -= *out_row_ctr'" % (path, fn))
+b = fbody("jdsample.c", "sep_upsample")
+if "output_buf+*out_row_ctr,(int)num_rows);" not in b or "*out_row_ctr+=num_rows;" not in b:
+    die("jdsample.c: sep_upsample: destination rows / counter update changed")
+b = fbody("jdmainct.c", "process_data_context_main")
+if b.count("_post_process_data)(cinfo") != 2 or "if(*out_row_ctr>=out_rows_avail)return;" not in b:
+    die("jdmainct.c: process_data_context_main: two post-processor invocations with the full-buffer return in between expected")
+b = fbody("jdapistd.c", "_jpeg_read_scanlines")
+if "row_ctr=0;" not in b or "(cinfo,scanlines,&row_ctr,max_lines);" not in b or "cinfo->output_scanline+=row_ctr;returnrow_ctr;" not in b:
+    die("jdapistd.c: _jpeg_read_scanlines body changed")
+
 h = open(repo + "/src/turbojpeg.h").read()
 
 
